@@ -496,8 +496,9 @@ static void build_targets(const std::string &family)
 		}
 		for (size_t i = 0; i < blobs.size(); i++)
 		{
+			if (!thorough && i >= 6 && i != 8) continue;   // quick: own artefacts, one external key, the V5 secret key
 			add_bin("packet.decode", blobs[i].first, blobs[i].second, [](const std::string &in) { return run_packet_loop(in, 0); });
-			if (i < 2 || thorough)
+			if (i < 1 || thorough)
 			{
 				add_bin("packet.decode-dkg", blobs[i].first, blobs[i].second, [](const std::string &in) { return run_packet_loop(in, 1); });
 				add_bin("packet.decode-dkg2", blobs[i].first, blobs[i].second, [](const std::string &in) { return run_packet_loop(in, 2); });
@@ -514,7 +515,7 @@ static void build_targets(const std::string &family)
 			return r;
 		};
 		add_bin("pgp.PublicKeyBlockParse", "dsa-elg", pubblock, run_pub);
-		for (size_t i = 0; i < ext.size(); i++)
+		for (size_t i = 0; i < ext.size() && (thorough || i < 1); i++)
 		{
 			tmcg_openpgp_octets_t o;
 			PGP::ArmorDecode(ext[i].second, o);
@@ -536,7 +537,9 @@ static void build_targets(const std::string &family)
 			return c ? 1 : 0;
 		};
 		add_bin("pgp.PrivateKeyBlockParse", "dsa-elg", prvblock, [run_prv](const std::string &in) { return run_prv(in, "FCK!NSA"); });
-		add_bin("pgp.PrivateKeyBlockParse", "dsa-elg-wrongpw", prvblock, [run_prv](const std::string &in) { return run_prv(in, "wrong"); }, false);
+		if (thorough)
+			add_bin("pgp.PrivateKeyBlockParse", "dsa-elg-wrongpw", prvblock, [run_prv](const std::string &in) { return run_prv(in, "wrong"); }, false);
+		if (thorough)
 		{
 			tmcg_openpgp_octets_t o;
 			PGP::ArmorDecode(EXT_EMMA, o);
@@ -572,6 +575,7 @@ static void build_targets(const std::string &family)
 			return r;
 		};
 		add_bin("pgp.SignatureParse", "dsa-detached", sig, run_sig);
+		if (thorough)
 		{
 			tmcg_openpgp_octets_t o;
 			PGP::ArmorDecode(EXT_ALICE_SIG, o);
@@ -614,7 +618,8 @@ static void build_targets(const std::string &family)
 			return r;
 		};
 		add_bin("pgp.MessageParse-Decrypt", "pkesk-seipd", msg, run_msg);
-		add_bin("pgp.MessageParse-Decrypt", "pkesk-sed", msg_sed, run_msg, false);
+		if (thorough)
+			add_bin("pgp.MessageParse-Decrypt", "pkesk-sed", msg_sed, run_msg, false);
 		add_bin("pgp.MessageParse", "literal", lit, [](const std::string &in) {
 			TMCG_OpenPGP_Message *m = NULL;
 			if (!PGP::MessageParse(oct(in), 0, m)) return 0;
